@@ -196,7 +196,9 @@ fn run_pcase(report: &mut Report, p: &PCase, stallcheck: bool) -> bool {
         .filter_map(|c| if let CallOutcome::Quiesced(_, counts) = &c.outcome { Some(counts) } else { None })
         .collect();
     for w in qs.windows(2) {
-        if w[0].iter().any(|(ch, v)| w[1].get(ch).map(|x| x.0) != Some(v.0)) {
+        // with commands queued before the judged pause a chain may still legitimately work them off (one draw each);
+        // the strict "nothing at all" clause is judged when no other command was outstanding
+        if queued == 0 && w[0].iter().any(|(ch, v)| w[1].get(ch).map(|x| x.0) != Some(v.0)) {
             report.violation(sig("recorded_while_paused"), format!("record counts changed between two quiescent points of one pause: {:?} -> {:?}", w[0], w[1]), replay.clone());
         }
     }
